@@ -20,14 +20,16 @@ def get(name):
     """ Returns an instance of an object with the given class name """
     fields = get_all()
     f = None
-    threshold = re.findall("[Tt]hreshold:([.0-9]*)", name)
-    quantile = re.findall("[Qq]uantile:([.0-9]*)", name)
+    threshold = re.findall("^[Tt]hreshold:(.*)$", name)
+    quantile = re.findall("^[Qq]uantile:(.*)$", name)
     if len(threshold) == 1:
-        threshold = float(threshold[0])
-        return Threshold(threshold)
+        if not verif.util.is_number(threshold[0]):
+            verif.util.error("Could not understand the threshold in field '%s'" % name)
+        return Threshold(float(threshold[0]))
     elif len(quantile) == 1:
-        quantile = float(quantile[0])
-        return Quantile(quantile)
+        if not verif.util.is_number(quantile[0]):
+            verif.util.error("Could not understand the quantile in field '%s'" % name)
+        return Quantile(float(quantile[0]))
 
     for field in fields:
         if name == field[0].lower():
